@@ -432,9 +432,8 @@ type e2eRecords struct {
 	queries []record
 	openEnd []record
 	sorts   []record
-	// queries whose term-range walk cannot finish: (case, integer bounds)
+	// queries executed in a child process with a deadline: (case, integer bounds)
 	blowups []blowupCase
-	skipped int // walk too long for in-process execution but not hopeless: not executed
 }
 
 type blowupCase struct {
@@ -536,9 +535,6 @@ func buildE2E(c *core.Ctx) (*e2eRecords, error) {
 	// canonical members of the open finding "range enumeration blow-up": always present
 	two, below2 := math.Float64bits(2), math.Float64bits(math.Nextafter(2, 0))
 	for _, t := range tasks {
-		if t.eng != "scorch" {
-			continue
-		}
 		switch t.cp.Name {
 		case "num-single":
 			jobs = append(jobs, qjob{t: t, q: &querySpec{Eng: t.eng, HasMin: true, HasMax: true, Min: below2, Max: two, IncMin: 2, IncMax: 2}})
@@ -553,11 +549,7 @@ func buildE2E(c *core.Ctx) (*e2eRecords, error) {
 			mn, mx := queryIntBounds(j.t.cp, *j.q)
 			w := walkLength(mn, mx)
 			if w.Cmp(walkInProcess) > 0 {
-				if w.Cmp(walkHopeless) >= 0 && j.t.eng == "scorch" {
-					out.blowups = append(out.blowups, blowupCase{cs: caseSpec{Kind: "query", Corpus: j.t.cp, Query: j.q}, mn: mn, mx: mx, walk: w.String()})
-				} else {
-					out.skipped++
-				}
+				out.blowups = append(out.blowups, blowupCase{cs: caseSpec{Kind: "query", Corpus: j.t.cp, Query: j.q}, mn: mn, mx: mx, walk: w.String()})
 				continue
 			}
 		}
